@@ -2,13 +2,195 @@ package main
 
 import "verifh/lib"
 
+// The regression corpus: the witnesses of every defect found for C17 (fixed or listed), built
+// by hand with the same machinery as the generated programs. Run first on every check.
 type corpusCase struct {
 	name    string
 	build   func() *Generated
 	layouts []Layout
 }
 
-func corpusList() []corpusCase { return nil }
+type hand struct {
+	g    *gen
+	main *Func
+	fx   *fctx
+}
+
+func newHand(seed uint64) *hand {
+	g := newGen(lib.NewRand(seed))
+	main := &Func{ID: 0, IsMain: true, Vararg: true}
+	fx := &fctx{fn: main, callerNLoc: -1}
+	fx.push()
+	return &hand{g, main, fx}
+}
+
+func (h *hand) local(fx *fctx, nm string, v int) *Stmt {
+	fx.declare(Binding{nm, ival(v)})
+	return &Stmt{K: "local", Names: []string{nm}, Exprs: []*Expr{num(v)}, Vals: []*int{ival(v)}}
+}
+
+// q is the statement Q(id) observed at levels 1 and 2.
+func (h *hand) q(fx *fctx) *Stmt {
+	p := h.g.pt("Q")
+	e := call(name("Q"), num(p.ID))
+	e.Pt = p
+	h.g.observeFrame(fx, p, func() *Expr { return e })
+	return &Stmt{K: "call", Exprs: []*Expr{e}}
+}
+
+func (h *hand) qs(fx *fctx, idx, v int) *Stmt {
+	p := h.g.pt("QS")
+	ie := num(idx)
+	if idx < 0 {
+		ie = un("-", num(-idx))
+	}
+	e := call(name("QS"), num(p.ID), num(1), ie, num(v))
+	e.Pt = p
+	h.g.sets = append(h.g.sets, setObs{scopeObs{fixed(fx.fn), p.ID, p.ID, 1}, idx, v})
+	return &Stmt{K: "call", Exprs: []*Expr{e}}
+}
+
+func layoutsFor(g *Generated, seed uint64) []Layout {
+	r := lib.NewRand(seed)
+	var ls []Layout
+	for k := 0; k < 4; k++ {
+		ls = append(ls, makeLayout(g.Prog, k, r.Fork()))
+	}
+	return ls
+}
+
+func corpusList() []corpusCase {
+	var out []corpusCase
+	add := func(name string, build func() *Generated) {
+		out = append(out, corpusCase{name, build, layoutsFor(build(), 17)})
+	}
+	// C17-1 (fixed 0bd7783): local a=1; do local c=3 end; local d=4; getlocal(1,2) gave "c",4
+	add("dbglocals-register-reuse", func() *Generated {
+		h := newHand(1)
+		b := []*Stmt{h.local(h.fx, "a", 1)}
+		h.fx.push()
+		inner := []*Stmt{h.local(h.fx, "c", 3), h.q(h.fx)}
+		h.fx.pop()
+		b = append(b, &Stmt{K: "do", Body: inner})
+		b = append(b, h.local(h.fx, "d", 4), h.q(h.fx))
+		h.fx.push()
+		in2 := []*Stmt{h.local(h.fx, "e", 5), h.local(h.fx, "f", 6)}
+		h.fx.pop()
+		b = append(b, &Stmt{K: "do", Body: in2}, h.local(h.fx, "g", 7), h.q(h.fx), h.qs(h.fx, 2, 9001))
+		h.main.Body = b
+		return finish(h.g, h.main)
+	})
+	// fixed 6924931: hidden loop variables were in scope inside the loop header expressions
+	add("for-header-scope", func() *Generated {
+		h := newHand(2)
+		mk := func() *Expr {
+			p := h.g.pt("Q")
+			e := call(name("Q"), num(p.ID))
+			e.Pt = p
+			h.g.observeFrame(h.fx, p, func() *Expr { return e })
+			return e
+		}
+		b := []*Stmt{h.local(h.fx, "a", 1)}
+		nf := &Stmt{K: "numfor", Names: []string{"i"}, Exprs: []*Expr{mk(), mk(), mk()}}
+		h.fx.push()
+		for _, n := range []string{"(for index)", "(for limit)", "(for step)", "i"} {
+			h.fx.declare(Binding{n, ival(1)})
+		}
+		nf.ForVals = [4]*int{ival(1), ival(1), ival(1), ival(1)}
+		nf.Body = []*Stmt{h.q(h.fx)}
+		h.fx.pop()
+		gf := &Stmt{K: "genfor", Names: []string{"k", "v"}, Exprs: []*Expr{call(name("pairs"), &Expr{K: "table", Args: []*Expr{mk()}, Keys: []string{""}})}, Vals: []*int{ival(1), ival(1)}}
+		h.fx.push()
+		for _, n := range []string{"(for generator)", "(for state)", "(for control)"} {
+			h.fx.declare(Binding{n, nil})
+		}
+		h.fx.declare(Binding{"k", ival(1)})
+		h.fx.declare(Binding{"v", ival(1)})
+		gf.Body = []*Stmt{h.q(h.fx)}
+		h.fx.pop()
+		h.main.Body = append(b, nf, gf, h.q(h.fx))
+		return finish(h.g, h.main)
+	})
+	// fixed 2c783a2: getlocal/setlocal with index 0 or negative
+	add("getlocal-index-le-0", func() *Generated {
+		h := newHand(3)
+		h.main.Body = []*Stmt{h.local(h.fx, "a", 1), h.qs(h.fx, 0, 9002), h.qs(h.fx, -1, 9003), h.qs(h.fx, 1, 9004), h.qs(h.fx, 250, 9005), h.q(h.fx)}
+		return finish(h.g, h.main)
+	})
+	// fixed 8d6d67c: linedefined of function statements
+	add("linedefined-function-statement", func() *Generated {
+		h := newHand(4)
+		var body []*Stmt
+		for _, kind := range []string{"localfunc", "funcstmt", "method", "anon"} {
+			f := &Func{ID: h.g.fn()}
+			cx := &fctx{fn: f, parent: h.fx, callerNLoc: -1}
+			cx.push()
+			var ce *Expr
+			switch kind {
+			case "localfunc":
+				ce = call(name("lf"))
+			case "funcstmt":
+				ce = call(index(name("T"), "gf"))
+			case "method":
+				f.Method = true
+				cx.declare(Binding{"self", nil})
+				ce = method(name("T"), "mm")
+			default:
+				ce = call(name("af"))
+			}
+			p := h.g.pt("chain")
+			ce.Pt = p
+			cx.callSite, cx.callPt, cx.callerFn = ce, p, h.fx
+			f.Body = []*Stmt{h.q(cx), {K: "return", Exprs: []*Expr{num(1)}}}
+			switch kind {
+			case "localfunc":
+				h.fx.declare(Binding{"lf", nil})
+				body = append(body, &Stmt{K: "localfunc", Names: []string{"lf"}, Fn: f})
+			case "funcstmt":
+				body = append(body, &Stmt{K: "funcstmt", Path: []string{"T", "gf"}, Fn: f})
+			case "method":
+				body = append(body, &Stmt{K: "funcstmt", Path: []string{"T"}, Method: "mm", Fn: f})
+			default:
+				body = append(body, &Stmt{K: "local", Names: []string{"af"}, Exprs: []*Expr{{K: "func", Fn: f}}, Vals: []*int{nil}})
+				h.fx.declare(Binding{"af", nil})
+			}
+			body = append(body, &Stmt{K: "call", Exprs: []*Expr{ce}})
+		}
+		h.main.Body = body
+		return finish(h.g, h.main)
+	})
+	// C17-2 (= C05-3, open): error("m", 2) reports the level-1 position
+	add("error-level-2", func() *Generated {
+		h := newHand(5)
+		inner := &Func{ID: h.g.fn()}
+		ci := &fctx{fn: inner, parent: h.fx, callerNLoc: -1}
+		ci.push()
+		outer := &Func{ID: h.g.fn()}
+		co := &fctx{fn: outer, parent: h.fx, callerNLoc: -1}
+		co.push()
+		ce := call(name("inner"))
+		p := h.g.pt("chain")
+		ce.Pt = p
+		ci.callSite, ci.callPt, ci.callerFn = ce, p, co
+		er := call(name("error"), str("\"m\""), num(2))
+		inner.Body = []*Stmt{{K: "call", Exprs: []*Expr{er}}}
+		h.g.lines = append(h.g.lines, lineObs{"range", func() int { return ce.First }, func() int { return er.Anchor }, obsSrc{"err", 1, 0, 0}, "err:error2"})
+		h.g.kf["C17-2"] = true
+		h.g.classes["fault:error2"] = true
+		h.fx.declare(Binding{"inner", nil})
+		co.resolve("inner")
+		outer.Body = []*Stmt{{K: "call", Exprs: []*Expr{ce}}, {K: "return", Exprs: []*Expr{num(1)}}}
+		h.fx.declare(Binding{"outer", nil})
+		h.g.nScen = 1
+		h.main.Body = []*Stmt{
+			{K: "localfunc", Names: []string{"inner"}, Fn: inner},
+			{K: "localfunc", Names: []string{"outer"}, Fn: outer},
+			{K: "call", Exprs: []*Expr{call(name("R"), num(1), call(name("pcall"), name("outer")))}},
+		}
+		return finish(h.g, h.main)
+	})
+	return out
+}
 
 func corpus(w *lib.Writer) {
 	for _, c := range corpusList() {
